@@ -214,7 +214,7 @@ theorem save_conditions (s : Sess) (w : Spec.Work) (cur : Option Spec.SSess) (no
     Spec.sameMap w.data (oldData cur) = decide (s.data = s.copy) ∧
     (w.how == Spec.fixed) = (s.how == Gen.howFixed) ∧ (w.how == Spec.renew) = (s.how == Gen.howRenew) ∧
     (w.how == Spec.browser) = (s.how == Gen.howBrowser) ∧
-    decide (10 * (now + w.age - oldDeadline cur) < w.age) = decide (Gen.delta now s.timeoutVal s.timeoutIn * Gen.renewDen < s.timeoutVal * Gen.renewNum) := by
+    (∀ tdef, decide (10 * (now + w.age - oldDeadline cur) < w.age) = decide (Gen.delta now s.timeoutVal s.timeoutIn * Gen.renewDen < Gen.renewBase s.timeoutVal tdef * Gen.renewNum)) := by
   obtain ⟨hrel, hsd, hsc, hcopy, htin⟩ := h
   have e1 : w.data.isEmpty = s.data.isEmpty := by rw [← mapEq_isEmpty hrel.data, toS_isEmpty]
   have e2 : (oldData cur).isEmpty = s.copy.isEmpty := by rw [← mapEq_isEmpty hcopy, toS_isEmpty]
@@ -227,8 +227,9 @@ theorem save_conditions (s : Sess) (w : Spec.Work) (cur : Option Spec.SSess) (no
   · rw [← hrel.how]; rfl
   · rw [← hrel.how]; rfl
   · rw [← hrel.how]; rfl
-  · rw [← hrel.age, ← htin]
-    simp only [Gen.delta, Gen.renewDen, Gen.renewNum]
+  · intro tdef
+    rw [← hrel.age, ← htin]
+    simp only [Gen.delta, Gen.renewDen, Gen.renewNum, Gen.renewBase]
     apply decide_eq_decide.mpr
     omega
 
@@ -256,7 +257,7 @@ theorem siSave_spec (ctx : Ctx) (s : Sess) (w : Spec.Work) (st : Store) (next : 
           else aliveTok ctx.cfg ctx.env t st.recs c2 := by
   obtain ⟨c1, c2', c3, c4, c5, c6, c7⟩ := save_conditions s w cur ctx.now h
   have hlong := tooLong_iff s.data w.data h.sdata h.rel.data
-  rw [decideSave_unfold, c2', c1, c3, c4, c5, c6, c7]
+  rw [decideSave_unfold, c2', c1, c3, c4, c5, c6, c7 ctx.cfg.timeoutDef]
   simp only [siSave]
   by_cases hem : s.data.isEmpty = true
   · -- cleared
@@ -276,7 +277,7 @@ theorem siSave_spec (ctx : Ctx) (s : Sess) (w : Spec.Work) (st : Store) (next : 
     · simp only [hu1, if_true]
     · simp only [hu1, Bool.false_eq_true, if_false]
       by_cases hu2 : ((decide (s.data = s.copy) && !newSession s) && (s.how == Gen.howRenew || s.how == Gen.howBrowser)
-          && decide (Gen.delta ctx.now s.timeoutVal s.timeoutIn * Gen.renewDen < s.timeoutVal * Gen.renewNum)) = true
+          && decide (Gen.delta ctx.now s.timeoutVal s.timeoutIn * Gen.renewDen < Gen.renewBase s.timeoutVal ctx.cfg.timeoutDef * Gen.renewNum)) = true
       · simp only [hu2, if_true]
       · simp only [hu2, Bool.false_eq_true, if_false]
         by_cases hl : Spec.tooLong w.data = true
